@@ -206,6 +206,23 @@ CLAIMED = {
          "sampled inputs; the step-wise recovery discipline on short inputs is in C01/C02's trace validation.",
          "TLC-enumerated grammars, seeded random inputs on the real run-time with deadline / panic detection",
          "DESIGN.md §6 C19"),
+ "C29": ("model_checking",
+         "LsDiag.tla models the main loop (handle / ok sections) and the background analysis threads (run / pub sections) publishing into "
+         "one channel; TLC proves FinalDiagnosticsCurrent for the required behaviour (all interleavings, 3 edits x 4 text classes) and "
+         "shows the as-coded structure violates it. Every schedule of the as-coded machine (within bounds) is replayed through the real "
+         "parol-ls binary over LSP with the cfg(parol_verif) gate forcing that exact order; Trace_LsDiag.tla checks the observed publish "
+         "sequence is the model's (conformance) and ends with the final text's diagnostics at the final version (property).",
+         "one document, <= 3 edits; quick replays all 2-edit schedules and every 12th 3-edit schedule; known finding F15 covers exactly the "
+         "histories the as-coded model predicts.",
+         "TLC model checking of all interleavings + schedule replay through the real server + TLC trace validation",
+         "DESIGN.md §6 C29"),
+ "C34": ("exploration",
+         "Differential parsing: every text (repository grammars, catalogues, TLC-enumerated templates and EBNF grammars, each with seeded "
+         "mutations) is parsed by parol's parser and by the language server's parser (batch mode hook); ParseAgree.tla requires equal syntax "
+         "verdicts and no panic.",
+         "sampled texts; bounded CFG equivalence of the two grammars by TLC is infeasible at 43 terminals (DESIGN.md).",
+         "differential testing of the two parsers with TLC-generated and mutated texts, verdicts compared by a TLC trace spec",
+         "DESIGN.md §6 C34"),
 }
 
 NOT_YET = "check not built yet in this round (see DESIGN.md §11.2 build order); will be claimed once its quick check passes on the unchanged tree"
